@@ -364,7 +364,7 @@ def handleObj (st : DState) (parts : List String) : Option (DState × String) :=
       let (fl, ws) := if kf == "cbor" then runOut CborEnc.step CborEnc.init toks
                       else runOut (JsonEnc.step ⟨line, indent⟩ FloatText.jsonFloat) JsonEnc.init toks
       -- lock-step: if the sink stopped early the source was stepped exactly as many times
-      let left := if fl.length < toks.length then
+      let left := if fl.getLast? != some Flag.cont && fl.length > 0 then
           (if sf == "cbor" then (CborDec.run false fl.length CborDec.init (Rd.ofBytes bs) [] 0 0).rd.sourceLeft
            else (JsonDec.run fl.length JsonDec.init (Rd.ofBytes bs) [] 0).rd.sourceLeft)
         else left0
